@@ -303,6 +303,19 @@ Theorem C06_returned_closed : forall cfg f s c r,
 Proof. exact returned_closed. Qed.
 Print Assumptions C06_returned_closed.
 
+(* the path keeps naming the file that carries the lock: no operation of any program unlinks,
+   renames or replaces it — under every policy, and in every schedule *)
+Theorem C06_file_never_removed : forall i c p pol h s j,
+  files s j <> None ->
+  match run_pol i c p pol h s with (_, _, s') => files s' j <> None end.
+Proof. exact file_never_removed. Qed.
+Print Assumptions C06_file_never_removed.
+
+Theorem C06_file_never_removed_sched : forall cfg f s j,
+  reachable cfg f s -> f j <> None -> files (st_os s) j <> None.
+Proof. exact file_never_removed_sched. Qed.
+Print Assumptions C06_file_never_removed_sched.
+
 (* the structure of the source these programs rely on (regenerated from the AST on every run):
    Read, Write and Transform close the File they acquired before any statement that can return,
    and the unlock function of Mutex.Lock calls Close *)
